@@ -8,8 +8,28 @@ open Gmx.MarketOpen
 def showOpenness : Openness → String
   | .open => "Open" | .closed => "Closed" | .skip => "Skip"
 
+def pCfgOp (s : String) : Option CfgOp :=
+  match s.toList with
+  | 'f' :: r => (String.ofList r).toNat?.map CfgOp.withFeed
+  | 't' :: r => (String.ofList r).toNat?.bind fun t => if t < 2 ^ 32 then some (.withTsAdj t) else none
+  | 'd' :: r => (String.ofList r).toNat?.bind fun t => if t < 2 ^ 32 then some (.withRatio t) else none
+  | 's' :: r => match (String.ofList r).splitOn ":" with
+    | [i, b] => match i.toNat?, b.toNat? with
+      | some i, some b => if i < 6 ∧ b ≤ 1 then some (.setFlag i (b == 1)) else none
+      | _, _ => none
+    | _ => none
+  | _ => none
+
 def mopenEngine (args : List String) : String :=
   match args with
+  | ["cfg", pol, ops, st] =>
+    match allNat [pol, st], (if ops = "-" then some [] else (ops.splitOn ",").mapM pCfgOp) with
+    | some [pol, st], some ops =>
+      if pol < 64 ∧ st < 256 then
+        let c := (⟨1, 0, 0, pol⟩ : FeedCfg).run ops
+        s!"{c.feed} {c.tsAdj} {c.ratio} {c.flags} {showOpenness (openness (statusOf st) c.flags)}"
+      else "bad-op"
+    | _, _ => "bad-op"
   | ["open", st, pf, diff, ts, now, timeout, pol] =>
     match allNat [st, pf, diff, timeout, pol], allInt [ts, now] with
     | some [st, pf, diff, timeout, pol], some [ts, now] =>
